@@ -199,10 +199,58 @@ theorem no_duplicate_delivery (e : WExpr) (hwf : WF e = true) (hd : (sinks e).No
   rw [(one_write_per_record e hwf m).1]
   exact (sel_sublist e m).nodup hd
 
+/-! ### histories of records (every length) -/
+
+/-- fmt handles a history of records one after the other -/
+def emitAll (e : WExpr) (ms : List WMeta) : List (Nat × Ask) := ms.flatMap (emitRecord e)
+
+/-- **C13.history_routes** — over a history of ANY length the sequence of sinks written is the
+concatenation, in the order of the records, of what the expression denotes for each record: no
+record is lost, none is written out of order, none reaches a sink its definition does not name -/
+theorem history_routes (e : WExpr) (hwf : WF e = true) (ms : List WMeta) :
+    (emitAll e ms).map (·.1) = ms.flatMap (sel e) := by
+  induction ms with
+  | nil => simp [emitAll]
+  | cons m ms ih =>
+    simp only [emitAll, List.flatMap_cons, List.map_append] at ih ⊢
+    rw [(one_write_per_record e hwf m).1, ih]
+
+private theorem count_nodup (l : List Nat) (hd : l.Nodup) (k : Nat) :
+    l.count k = if k ∈ l then 1 else 0 := by
+  have h1 := List.nodup_iff_count.mp hd k
+  split
+  · rename_i h; have := List.count_pos_iff.mpr h; omega
+  · rename_i h; exact List.count_eq_zero.mpr h
+
+/-- **C13.history_exact_per_sink** — with each sink named once, the number of writes a sink receives
+over a history equals the number of records that select it: exactly one write per selected record,
+for every history and every sink -/
+theorem history_exact_per_sink (e : WExpr) (hwf : WF e = true) (hd : (sinks e).Nodup)
+    (ms : List WMeta) (k : Nat) :
+    ((emitAll e ms).map (·.1)).count k = (ms.filter (fun m => decide (k ∈ sel e m))).length := by
+  rw [history_routes e hwf ms]
+  induction ms with
+  | nil => simp
+  | cons m ms ih =>
+    simp only [List.flatMap_cons, List.count_append, ih, List.filter_cons]
+    rw [count_nodup _ ((sel_sublist e m).nodup hd) k]
+    by_cases h : k ∈ sel e m <;> simp [h] <;> omega
+
+/-- **C13.history_silent_sink** — a sink that no record of the history selects is never written -/
+theorem history_silent_sink (e : WExpr) (hwf : WF e = true) (ms : List WMeta) (k : Nat)
+    (hk : ∀ m ∈ ms, k ∉ sel e m) : k ∉ (emitAll e ms).map (·.1) := by
+  rw [history_routes e hwf ms]
+  simp only [List.mem_flatMap, not_exists, not_and]
+  exact fun m hm => hk m hm
+
 /-! ### non-vacuity -/
 example :
     let e : WExpr := .tee (.orElse (.maxLevel 2 (.sink 1)) (.filter (.targetIs 0) (.sink 2))) (.boxed (.minLevel 4 (.sink 3)))
     WF e = true ∧ (emitRecord e ⟨1, 0⟩).map (·.1) = [1] ∧ (emitRecord e ⟨3, 0⟩).map (·.1) = [2] ∧
     (emitRecord e ⟨5, 1⟩).map (·.1) = [3] ∧ (emitRecord e ⟨3, 1⟩).map (·.1) = [] := by decide
+
+example :
+    let e : WExpr := .tee (.orElse (.maxLevel 2 (.sink 1)) (.filter (.targetIs 0) (.sink 2))) (.boxed (.minLevel 4 (.sink 3)))
+    (sinks e).Nodup ∧ (emitAll e [⟨1, 0⟩, ⟨3, 0⟩, ⟨5, 1⟩, ⟨3, 1⟩, ⟨1, 1⟩]).map (·.1) = [1, 2, 3, 1] := by decide
 
 end C13
